@@ -32,6 +32,7 @@ _CONTAINER_CALLS = {
     set: ("add", "discard", "remove", "pop", "clear", "copy", "update", "union", "intersection", "difference", "issubset"),
 }
 _MISSING = object()
+_ITERTOOLS = ("takewhile", "dropwhile", "chain", "islice", "filterfalse", "zip_longest", "pairwise", "compress", "starmap")
 
 
 def _is_stub(o: Any) -> bool:
@@ -62,6 +63,14 @@ class FolderX(Folder):
 
     def _f_Call(self, n):
         f = n.func
+        if isinstance(f, ast.Attribute) and isinstance(f.value, ast.Name) and f.value.id not in self.local and not n.keywords and self._module_alias(f.value.id) == "itertools" and f.attr in _ITERTOOLS:
+            # pure iterator combinators of the standard library, applied to folded values (lambdas fold to callables)
+            import itertools as _it
+
+            args = [self.fold(a) for a in n.args]
+            if f.attr == "chain":
+                return list(_it.chain(*args))
+            return list(getattr(_it, f.attr)(*args))
         if isinstance(f, ast.Attribute) and not n.keywords:
             try:
                 recv = self.fold(f.value)
@@ -137,6 +146,8 @@ class FolderX(Folder):
         return super()._f_Compare(n)
 
     def _f_Attribute(self, n):
+        if isinstance(n.value, ast.Name) and n.value.id in self.local and self.local[n.value.id] is None:
+            raise AttributeError(f"'NoneType' object has no attribute '{n.attr}'")  # what the analysed code would raise
         if n.attr == "__dict__":
             o = self.fold(n.value)
             if _is_stub(o):
